@@ -255,6 +255,11 @@ func driverSource(dir, name string) (string, error) {
 				if f.result == hf[1] && strings.HasPrefix(f.name, "New") {
 					var args []string
 					for _, p := range f.params {
+						if p == "io.ReadCloser" {
+							// (a nil reader is the handler author's error, not the generated code's)
+							args = append(args, "verifreg.EmptyBody()")
+							continue
+						}
 						args = append(args, "*new("+p+")")
 					}
 					ctor = f.name + "(" + strings.Join(args, ", ") + ")"
